@@ -71,6 +71,44 @@ ARB_MAIN = r"""
 """
 
 
+ARB_STRING_MAIN = r"""
+    // ---- String Arbitrary (C09), BOUNDED exploration: a length-selector byte followed by up to 4 chars
+    // (4 little-endian bytes each) from an alphabet of whitespace / case-expanding / multi-byte chars,
+    // plus all-zero / all-0xFF inputs of every length up to 64
+    {
+        std::panic::set_hook(Box::new(|_| {}));
+        let alphabet: [u32; 10] = [0x20, 0x61, 0x41, 0xDF, 0x130, 0xA0, 0x1C5, 0x149, 0xFB01, 0x09];
+        let mut pats: Vec<Vec<u8>> = vec![vec![]];
+        for len in 1..=64usize { pats.push(vec![0u8; len]); pats.push(vec![0xFFu8; len]); }
+        let enc = |cs: &[u32]| -> Vec<u8> { cs.iter().flat_map(|c| c.to_le_bytes()).collect() };
+        for l in 0..=24u8 {
+            pats.push(vec![l]);
+            for &a in &alphabet { let mut v = vec![l]; v.extend(enc(&[a])); pats.push(v);
+                for &b in &alphabet { let mut v = vec![l]; v.extend(enc(&[a, b])); pats.push(v);
+                    for &c in &alphabet { let mut v = vec![l]; v.extend(enc(&[a, b, c])); pats.push(v.clone());
+                        if l % 4 == 1 { for &e in &[0x20u32, 0xDF, 0x61] { let mut v4 = v.clone(); v4.extend(enc(&[e])); pats.push(v4); } } } } }
+        }
+        let mut explored = 0usize;
+        for (lo, hi) in [(2usize, 8usize), (0, 0), (1, 1), (1, 3), (3, 3)] {
+            unsafe { SYM_LEN_LO = lo; SYM_LEN_HI = hi; }
+            let setting = format!("len_lo={} len_hi={}", lo, hi);
+            // the property only speaks about declarations whose valid set is non-empty
+            if !(0..=40usize).any(|k| { let c = "a".repeat(k); @R@::valid(&@R@::sanitize(c)) }) { continue; }
+            for p in pats.iter() {
+                explored += 1;
+                let r = std::panic::catch_unwind(|| { let mut u = arbitrary::Unstructured::new(p); <@S@ as arbitrary::Arbitrary>::arbitrary(&mut u).map(|v| v.into_inner()) });
+                match r {
+                    Err(_) => report("Arbitrary", &format!("bytes {:?}", p), &setting, "PANIC".to_string(), "Ok(valid value) or Err(arbitrary::Error)".to_string(), &mut n),
+                    Ok(Ok(i)) => if !@R@::valid(&i) || @R@::sanitize(i.clone()) != i { report("Arbitrary", &format!("bytes {:?}", p), &setting, format!("Ok({:?}) which is not a valid sanitized value", i), "a valid value".to_string(), &mut n) },
+                    Ok(Err(_)) => {}
+                }
+            }
+        }
+        println!("{{\"explored_string_arbitrary_inputs\":{}}}", explored);
+    }
+"""
+
+
 def arb_settings(d: Decl):
     t = d.inner
     T = t.upper()
@@ -223,6 +261,8 @@ def witness_crate(d: Decl, extra_inputs=()):
         main.append('    for (x, label) in cands { check_one(x, label, "", &mut n); }\n')
     if 'Arbitrary' in d.derives and d.family in ('int', 'float'):
         main.append(ARB_MAIN.replace('@S@', S).replace('@R@', R).replace('@I@', I).replace('@SETUP@', arb_settings(d)))
+    if 'Arbitrary' in d.derives and d.family == 'string':
+        main.append(ARB_STRING_MAIN.replace('@S@', S).replace('@R@', R))
     main.append('    println!("{{\\"mismatches\\":{}}}", n);\n}\n')
     out.extend(main)
     return ''.join(out)
